@@ -11,12 +11,12 @@ THEOREMS = [
     "RedunModel.C01.evalFuel_sound",
     "RedunModel.C01.evalAll_sound",
     "RedunModel.C01.evalAll_complete",
+    "RedunModel.C01.evalAll_exact",
     "RedunModel.C01.evalFuel_unique",
     "RedunModel.C01.value_fixed",
     "RedunModel.C01.result_is_value",
     "RedunModel.C01.reevaluation_identity",
     "RedunModel.C01.never_unknown",
-    "RedunModel.C01.sound_partial",
 ]
 TRUSTED = [
     "modelled, not verified: the Python bodies of the ~55 library tasks (props/_evallib.py <-> Model/EvalLib.lean), Python's "
@@ -47,8 +47,7 @@ LEVEL_TEXT = ("Proved in Lean for every task table (bodies = arbitrary determini
               "reports no unknown, every outcome the rules allow is in its set: the set IS the denotation), evalFuel_unique "
               "(full determinism wherever evalFuel answers: the value or error is the only outcome the rules allow), value_fixed / "
               "result_is_value / reevaluation_identity (results are concrete values and evaluating them again — as done_job does "
-              "after a CSE hit, and the outer scheduler after subrun — changes nothing), never_unknown. sound_partial is the "
-              "machine-vs-relation statement restricted to what a big-step model can carry (see note). Tie: differential runs of "
+              "after a CSE hit, and the outer scheduler after subrun — changes nothing), never_unknown. Tie: differential runs of "
               "generated programs on the real Scheduler under seeded completion orders and in thread/process/async modes.")
 LEVEL_NOTE = ("PARTIAL with respect to the design's C01_sound: the event-loop machine (jobs, promises, _pending_expr memo, CSE, "
               "completion orders) is not inside this model, so 'for every schedule the machine's root promise settles with r => "
